@@ -20,91 +20,202 @@ def _ok(ctx, rule, inst, ok, loc, construct, why, witness, sample=None):
 
 # ------------------------------------------------------------------------------------------- toposort
 def toposort(ctx, world):
-    ctx.describe("A13.topo", "toposort is Kahn's algorithm on consumer edges with multi-edge counting: phase 1 counts one unit per consumer edge (every visit +1, parents pushed on the FIRST visit only); phase 2 yields a node, then for every parent edge either releases the parent (exactly when this is its last outstanding edge) or decrements its count - never both, never neither; it starts from the end node only")
-    m, fn = world.repo.find_def("autograd.util", "toposort")
+    ctx.describe("A13.topo", "toposort is Kahn's algorithm on consumer edges with multi-edge counting: phase 1 counts one unit per consumer edge (every visit +1, parents pushed on the FIRST visit only); phase 2 yields a node, then for every parent edge either releases the parent (exactly when this is its last outstanding edge) or decrements its count - never both, never neither; it starts from the end node only.  Decided on the loop-carried terms of the evaluated function (helper functions inlined, conditions reduced to canonical atoms): the next-iteration values of the counter table and of the two work lists are classified by the facts `node in counts` and `counts[parent] == 1`")
+    ev = world.ev
+    n_loops0 = len(ev.loops)
+    r, syms, m, fn, sc = eval_function(world, "autograd.util", "toposort")
     loc = loc_of(m, fn)
     q = "autograd.util.toposort"
     W = "a value consumed by two operations (diamond) or passed twice to one operation (x * x): a node's rule runs before all of its consumers have contributed, or twice"
-    whiles = [s for s in fn.body if isinstance(s, ast.While)]
-    if len(whiles) != 2:
-        ctx.ob("A13.topo", "toposort: two phases", None, loc)
-        ctx.floor("A13.topo decided clauses", 0, 1)
-        return
-    p1, p2 = whiles
-    endp = fn.args.args[0].arg
-    parp = fn.args.args[1].arg if len(fn.args.args) > 1 else "parents"
-    # ---- phase 1
-    cnt = None
-    ok_first = ok_inc = None
-    if isinstance(p1.test, ast.Name):
-        stack = p1.test.id
-        ifs = [s for s in p1.body if isinstance(s, ast.If)]
-        if len(ifs) == 1 and isinstance(ifs[0].test, ast.Compare) and isinstance(ifs[0].test.ops[0], (ast.In, ast.NotIn)):
-            i = ifs[0]
-            cnt = i.test.comparators[0].id if isinstance(i.test.comparators[0], ast.Name) else None
-            seen_b, first_b = (i.body, i.orelse) if isinstance(i.test.ops[0], ast.In) else (i.orelse, i.body)
-            inc = [s for s in seen_b if isinstance(s, ast.AugAssign) and isinstance(s.op, ast.Add) and isinstance(s.value, ast.Constant) and s.value.value == 1]
-            init = [s for s in first_b if isinstance(s, ast.Assign) and isinstance(s.value, ast.Constant) and s.value.value == 1 and isinstance(s.targets[0], ast.Subscript)]
-            push_first = [c for s in first_b for c in calls_in(s) if isinstance(c.func, ast.Attribute) and c.func.attr in ("extend", "append") and isinstance(c.func.value, ast.Name) and c.func.value.id == stack]
-            push_seen = [c for s in seen_b for c in calls_in(s) if isinstance(c.func, ast.Attribute) and c.func.attr in ("extend", "append") and isinstance(c.func.value, ast.Name) and c.func.value.id == stack]
-            push_outside = [c for s in p1.body if s is not i for c in calls_in(s) if isinstance(c.func, ast.Attribute) and c.func.attr in ("extend", "append") and isinstance(c.func.value, ast.Name) and c.func.value.id == stack]
-            ok_inc = len(inc) == 1 and len(init) == 1 and len(seen_b) == 1
-            ok_first = len(push_first) == 1 and not push_seen and not push_outside
-            if ok_first:
-                a = push_first[0].args[0]
-                ok_first = isinstance(a, ast.Call) and isinstance(a.func, ast.Name) and a.func.id == parp
+    endp = syms[fn.args.args[0].arg]
+    parp = syms[fn.args.args[1].arg] if len(fn.args.args) > 1 else None
+
+    def empty_dict(t):
+        return t is not None and ((t.op == "dict" and not t.items) or (is_call_to(t, "builtins.dict") and not t.args and not t.kw) or (t.op == "call" and t.fn.op == "ref" and t.fn.ref.qual.endswith("defaultdict")))
+
+    def start_list(t):
+        return t is not None and t.op == "list" and len(t.elts) == 1 and t.elts[0] is endp
+
+    def me(lp):
+        return lambda t: t.op == "loopvar" and t.name == lp.name and t.node is lp.node
+
+    def loop_of(stmt, name):
+        for lp in reversed(ev.loops[n_loops0:]):
+            if lp.node is stmt and lp.name == name:
+                return lp
+        return None
+
+    def pop_of(t):
+        """loopvar L if t == L.pop() (any position argument), else None"""
+        if t is not None and t.op == "call" and t.fn.op == "attr" and t.fn.name == "pop" and t.fn.obj.op == "loopvar" and not t.kw:
+            return t.fn.obj
+        return None
+
+    def parents_of(t):
+        """n if t == parents(n)"""
+        if t is not None and t.op == "call" and parp is not None and t.fn is parp and len(t.args) == 1 and not t.kw:
+            return t.args[0]
+        return None
+
+    # the counter table at the end of the function: a loop (phase 2) whose initial value is a loop (phase 1) over {}
+    C2 = None
+    for name, v in sc.vars.items():
+        t = unseq(expand(ev, v, ()))
+        if t.op == "loop" and t.init is not None and t.init.op == "loop" and empty_dict(t.init.init):
+            C2 = t
+    ok_inc = ok_first = ok_start = ok_yield = ok_edge = None
+    if C2 is not None:
+        P1 = C2.init
+        c1 = me(P1)
+        # ---- phase 1: counting
+        n1 = None
+        ok_inc = True
+        seen = set()
+        is_in = None
+        for c in cases(P1.next):
+            lf = c.leaf
+            if lf.op != "store" or not c1(lf.obj):
+                ok_inc = False
+                continue
+            n1 = n1 if n1 is not None else lf.idx
+            if lf.idx is not n1 and not same(lf.idx, n1):
+                ok_inc = False
+            is_in = lambda a, n1=n1: a.op == "cmp" and a.opname == "In" and (a.l is n1 or same(a.l, n1)) and c1(a.r)
+            pol = c.pol(is_in)
+            seen.add(pol)
+            if pol is True:
+                v = lf.val
+                good = v.op == "bin" and v.opname == "Add" and ((v.l.op == "sub" and c1(v.l.obj) and (v.l.idx is n1 or same(v.l.idx, n1)) and v.r.op == "const" and v.r.value == 1) or (v.r.op == "sub" and c1(v.r.obj) and v.l.op == "const" and v.l.value == 1))
+                ok_inc = ok_inc and good
+            elif pol is False:
+                ok_inc = ok_inc and lf.val.op == "const" and lf.val.value == 1 and type(lf.val.value) is int
+            else:
+                ok_inc = False
+        ok_inc = ok_inc and seen == {True, False}
+        S1v = pop_of(n1)
+        S1 = loop_of(P1.node, S1v.name) if S1v is not None else None
+        if S1 is not None and is_in is not None:
+            s1 = me(S1)
+            ok_first = True
+            seen = set()
+            for c in cases(S1.next):
+                pol = c.pol(is_in)
+                seen.add(pol)
+                if pol is True:
+                    ok_first = ok_first and s1(c.leaf)
+                elif pol is False:
+                    lf = c.leaf
+                    ok_first = ok_first and lf.op == "grow" and lf.how == "extend" and s1(lf.obj) and parents_of(lf.val) is not None and (parents_of(lf.val) is n1 or same(parents_of(lf.val), n1))
+                else:
+                    ok_first = False
+            ok_first = ok_first and seen == {True, False}
+            cnd = S1.get("cond")
+            ok_first = ok_first and cnd is not None and atom(cnd)[1] and s1(atom(cnd)[0])
+        # ---- phase 2
+        I2 = C2.next
+        if I2 is not None and I2.op == "loop" and I2.get("it") is not None and me(C2)(I2.init):
+            n2 = parents_of(I2.it)
+            R2v = pop_of(n2)
+            R2 = loop_of(C2.node, R2v.name) if R2v is not None else None
+            ci = me(I2)
+            par = lambda t: t.op == "iterelem" and t.src is I2.it
+            cnt = lambda t, cv=ci: t.op == "sub" and cv(t.obj) and par(t.idx)
+            dec_of = lambda t: t.op == "store" and ci(t.obj) and par(t.idx) and t.val.op == "bin" and t.val.opname == "Sub" and cnt(t.val.l) and t.val.r.op == "const" and t.val.r.value == 1
+
+            def last_pol(c, counter):
+                """True/False when the path establishes that this is / is not the last outstanding edge"""
+                for a, p in c.facts:
+                    if a.op != "cmp":
+                        continue
+                    if a.opname == "Eq" and ((counter(a.l) and a.r.op == "const" and a.r.value == 1) or (counter(a.r) and a.l.op == "const" and a.l.value == 1)):
+                        return p
+                    if a.opname == "Lt" and a.l.op == "const" and a.l.value == 1 and counter(a.r):  # 1 < count
+                        return not p
+                    if a.opname == "Lt" and counter(a.l) and a.r.op == "const" and a.r.value == 2:  # count < 2
+                        return p
+                return None
+
+            if R2 is not None:
+                ys = [e for e in sc.effects for t in walk(e) if t.op == "yield"]
+                yt = [t for e in sc.effects for t in walk(e) if t.op == "yield"]
+                ok_yield = len(yt) == 1 and yt[0].x is n2 and yt[0] in sc.effects  # unconditional: the yield is not under a `when`
+                RI = R2.next
+                ok_start = start_list(R2.init) and (S1 is not None and start_list(S1.init))
+                cnd = R2.get("cond")
+                loop_ok = cnd is not None and atom(cnd)[1] and me(R2)(atom(cnd)[0])
+                if RI is not None and RI.op == "loop" and RI.node is I2.node and me(R2)(RI.init):
+                    ri = me(RI)
+                    rel_of = lambda t: t.op == "grow" and t.how == "append" and ri(t.obj) and par(t.val)
+                    form_a = True
+                    seen = set()
+                    for c in cases(I2.next):
+                        lp_ = last_pol(c, cnt)
+                        seen.add(lp_)
+                        if lp_ is True:
+                            form_a = form_a and (ci(c.leaf) or dec_of(c.leaf))
+                        elif lp_ is False:
+                            form_a = form_a and dec_of(c.leaf)
+                        else:
+                            form_a = False
+                    form_a = form_a and seen == {True, False}
+                    if form_a:
+                        seen = set()
+                        for c in cases(RI.next):
+                            lp_ = last_pol(c, cnt)
+                            seen.add(lp_)
+                            if lp_ is True:
+                                form_a = form_a and rel_of(c.leaf)
+                            elif lp_ is False:
+                                form_a = form_a and ri(c.leaf)
+                            else:
+                                form_a = False
+                        form_a = form_a and seen == {True, False}
+                    form_b = False
+                    if not form_a and dec_of(I2.next):
+                        # decrement first, release when the new count is zero
+                        newc = lambda t: t.op == "sub" and t.obj is I2.next and par(t.idx)
+                        def zero_pol(c):
+                            for a, p in c.facts:
+                                if a.op == "cmp" and a.opname == "Eq" and ((newc(a.l) and a.r.op == "const" and a.r.value == 0) or (newc(a.r) and a.l.op == "const" and a.l.value == 0)):
+                                    return p
+                                if a.op == "cmp" and a.opname == "Lt" and newc(a.l) and a.r.op == "const" and a.r.value == 1:
+                                    return p
+                                if a.op == "cmp" and a.opname == "Lt" and a.l.op == "const" and a.l.value == 0 and newc(a.r):
+                                    return not p
+                            return None
+                        form_b = True
+                        seen = set()
+                        for c in cases(RI.next):
+                            zp = zero_pol(c)
+                            seen.add(zp)
+                            if zp is True:
+                                form_b = form_b and rel_of(c.leaf)
+                            elif zp is False:
+                                form_b = form_b and ri(c.leaf)
+                            else:
+                                form_b = False
+                        form_b = form_b and seen == {True, False}
+                    ok_edge = bool((form_a or form_b) and loop_ok)
     _ok(ctx, "A13.topo", "toposort phase 1: every visit counts one consumer edge", ok_inc, loc, f"{q}:count", "phase 1 does not count exactly one unit per visit (first visit = 1, later visits += 1)", W)
     _ok(ctx, "A13.topo", "toposort phase 1: parents are pushed on the first visit only", ok_first, loc, f"{q}:push", "phase 1 pushes a node's parents on other than exactly its first visit (counts of shared ancestors are then multiplied or missing)", W)
-    # start set
-    starts = [s for s in fn.body if isinstance(s, ast.Assign) and isinstance(s.value, ast.List)]
-    ok_start = len(starts) == 2 and all(len(s.value.elts) == 1 and isinstance(s.value.elts[0], ast.Name) and s.value.elts[0].id == endp for s in starts)
     _ok(ctx, "A13.topo", "toposort: both phases start from the end node only", ok_start, loc, f"{q}:start", "a phase does not start from [end_node]", "operations the output does not depend on are differentiated / the end node is skipped")
-    # ---- phase 2
-    ok_yield = ok_edge = None
-    work = p2.test.id if isinstance(p2.test, ast.Name) else None
-    if work and cnt:
-        ys = [s for s in p2.body if isinstance(s, ast.Expr) and isinstance(s.value, ast.Yield)]
-        pops = [s for s in p2.body if isinstance(s, ast.Assign) and isinstance(s.value, ast.Call) and isinstance(s.value.func, ast.Attribute) and s.value.func.attr == "pop"]
-        ok_yield = len(ys) == 1 and len(pops) == 1 and isinstance(ys[0].value.value, ast.Name) and isinstance(pops[0].targets[0], ast.Name) and ys[0].value.value.id == pops[0].targets[0].id
-        fors = [s for s in p2.body if isinstance(s, ast.For)]
-        if len(fors) == 1 and isinstance(fors[0].target, ast.Name):
-            f = fors[0]
-            pv = f.target.id
-            it_ok = isinstance(f.iter, ast.Call) and isinstance(f.iter.func, ast.Name) and f.iter.func.id == parp and len(f.iter.args) == 1 and ok_yield and isinstance(f.iter.args[0], ast.Name) and f.iter.args[0].id == pops[0].targets[0].id
-
-            def is_cnt(e):
-                return isinstance(e, ast.Subscript) and isinstance(e.value, ast.Name) and e.value.id == cnt and isinstance(e.slice, ast.Name) and e.slice.id == pv
-
-            def is_release(s):
-                return isinstance(s, ast.Expr) and isinstance(s.value, ast.Call) and isinstance(s.value.func, ast.Attribute) and s.value.func.attr == "append" and isinstance(s.value.func.value, ast.Name) and s.value.func.value.id == work and len(s.value.args) == 1 and isinstance(s.value.args[0], ast.Name) and s.value.args[0].id == pv
-
-            def is_dec(s):
-                return isinstance(s, ast.AugAssign) and isinstance(s.op, ast.Sub) and is_cnt(s.target) and isinstance(s.value, ast.Constant) and s.value.value == 1
-
-            b = f.body
-            form = None
-            if len(b) == 1 and isinstance(b[0], ast.If) and isinstance(b[0].test, ast.Compare) and len(b[0].test.ops) == 1:
-                t = b[0].test
-                # form A: if count == 1: release else: count -= 1
-                if is_cnt(t.left) and isinstance(t.comparators[0], ast.Constant):
-                    c = t.comparators[0].value
-                    op = type(t.ops[0]).__name__
-                    if len(b[0].body) == 1 and len(b[0].orelse) == 1 and is_release(b[0].body[0]) and is_dec(b[0].orelse[0]):
-                        form = (op, c) in (("Eq", 1), ("LtE", 1), ("Lt", 2))
-                    elif len(b[0].body) == 1 and len(b[0].orelse) == 1 and is_dec(b[0].body[0]) and is_release(b[0].orelse[0]):
-                        form = (op, c) in (("NotEq", 1), ("Gt", 1), ("GtE", 2))
-                    elif is_release(b[0].body[0]) if b[0].body else False:
-                        form = False
-            elif len(b) == 2 and is_dec(b[0]) and isinstance(b[1], ast.If) and not b[1].orelse and isinstance(b[1].test, ast.Compare):
-                # form B: count -= 1; if count == 0: release
-                t = b[1].test
-                if is_cnt(t.left) and isinstance(t.comparators[0], ast.Constant) and len(b[1].body) == 1 and is_release(b[1].body[0]):
-                    form = (type(t.ops[0]).__name__, t.comparators[0].value) in (("Eq", 0), ("LtE", 0), ("Lt", 1))
-            ok_edge = (form and it_ok) if form is not None else None
     _ok(ctx, "A13.topo", "toposort phase 2: pops a released node and yields it", ok_yield, loc, f"{q}:yield", "phase 2 does not yield exactly the node it pops", W)
     _ok(ctx, "A13.topo", "toposort phase 2: per parent edge, release iff last outstanding edge, else decrement", ok_edge, loc, f"{q}:edge", "for a parent edge the parent is not released exactly when its outstanding count is 1 (else decremented by one)", W)
     # counters are compared by value, never by identity (`is` on ints only works for CPython's small-int cache)
-    ident = [x for x in ast.walk(fn) if isinstance(x, ast.Compare) and any(isinstance(o, (ast.Is, ast.IsNot)) for o in x.ops) and not any(isinstance(c, ast.Constant) and c.value is None for c in [x.left] + x.comparators)]
+    ident = []
+    scope_fns, todo = [], [fn]
+    while todo:
+        f_ = todo.pop()
+        if f_ in scope_fns:
+            continue
+        scope_fns.append(f_)
+        for c_ in ast.walk(f_):
+            if isinstance(c_, ast.Call) and isinstance(c_.func, ast.Name):
+                rr = world.repo.resolve(m, c_.func.id)
+                if rr is not None and rr.kind == "repo" and rr.okind == "def" and rr.mod is m and isinstance(rr.node, ast.FunctionDef):
+                    todo.append(rr.node)
+    for f_ in scope_fns:
+        ident += [x for x in ast.walk(f_) if isinstance(x, ast.Compare) and any(isinstance(o, (ast.Is, ast.IsNot)) for o in x.ops) and not any(isinstance(c, ast.Constant) and (c.value is None or isinstance(c.value, bool)) for c in [x.left] + x.comparators)]
     _ok(ctx, "A13.topo", "toposort: edge counters compared by value", not ident, loc_of(m, ident[0]) if ident else loc, f"{q}:identity-comparison", f"`{norm_text(ident[0]) if ident else ''}` compares counters with `is`: true only for CPython's cached small integers", "a value consumed more than 256 times (a parameter reused in a long Python loop)")
     decided = sum(1 for x in (ok_inc, ok_first, ok_yield, ok_edge) if x is not None)
     ctx.floor("A13.topo decided clauses", decided, 4)
@@ -484,26 +595,33 @@ def guard_functions(ctx, world):
             if isinstance(st, ast.FunctionDef) and st.name.startswith("check_"):
                 n += 1
                 inst = f"{mod.name}.{st.name}"
-                raises = [x for x in ast.walk(st) if isinstance(x, ast.Raise)]
-                ok = bool(raises)
-                why = "the guard function never raises"
-                for r in raises:
-                    chain = []
-                    p = getattr(r, "_parent", None)
-                    while p is not None and p is not st:
-                        if isinstance(p, (ast.If, ast.For, ast.While, ast.Try, ast.With)):
-                            chain.append(p)
-                        p = getattr(p, "_parent", None)
-                    if len(chain) != 1 or not isinstance(chain[0], ast.If):
-                        ok, why = False, f"the raise is nested under {len(chain)} control structures ({', '.join(type(c).__name__ for c in chain)}), not under a single `if`"
-                        break
-                    test = chain[0].test
-                    if isinstance(test, ast.BoolOp) and isinstance(test.op, ast.And):
-                        ok, why = False, f"the raise condition `{norm_text(test)[:60]}` is a conjunction"
-                        break
-                    if chain[0].body and r not in chain[0].body:
-                        ok, why = False, "the raise is in the else-branch of a more specific test"
-                        break
+                # decided on the evaluated body: every path is classified by the canonical atoms it decides
+                res, sy, m_, fn_, sc_ = eval_function(world, mod.name, st.name)
+                cs = cases(unseq(res)) if res is not None else []
+                rais = [c for c in cs if c.leaf.op == "raise"]
+                quiet = [c for c in cs if c.leaf.op != "raise"]
+                loops = [x for x in ast.walk(st) if isinstance(x, (ast.For, ast.While, ast.Try, ast.With))]
+                ok, why = True, ""
+                if not rais:
+                    ok, why = False, "the guard function never raises"
+                elif loops:
+                    ok, why = False, f"the raise is nested under a {type(loops[0]).__name__}, not under a single comparison"
+                else:
+                    for c in rais:
+                        if len(c.facts) != 1:
+                            ok = False
+                            why = (f"the raise condition is a conjunction of {len(c.facts)} tests ({'; '.join(str(a)[:40] for a, _ in c.facts)})" if c.facts else "the guard raises unconditionally")
+                            break
+                        a0, p0 = c.facts[0]
+                        if a0.op == "bool":
+                            ok, why = False, f"the raise condition `{str(a0)[:60]}` is a compound test"
+                            break
+                    if ok:
+                        a0, p0 = rais[0].facts[0]
+                        from ..kfun import same as _same
+
+                        if not all(len(c.facts) == 1 and _same(c.facts[0][0], a0) and c.facts[0][1] != p0 for c in quiet) or not all(_same(c.facts[0][0], a0) and c.facts[0][1] == p0 for c in rais):
+                            ok, why = False, "the guard does not raise under exactly one comparison over its parameters"
                 _ok(ctx, "A6.guardfn", inst, ok, loc_of(mod, st), inst, f"{inst}: {why}", "an unsupported configuration that satisfies the original condition but not the additional ones")
     ctx.floor("A6.guardfn guard functions", n, 2)
 
